@@ -15,6 +15,7 @@ from fractions import Fraction
 from . import c08_docs as docs
 from . import c08_codec as codec
 from . import c08_classes as classes
+from . import c08_directed as directed
 from . import c08_refs as refs
 from .common import Spec, Driver, GEN, write_if_changed
 
@@ -495,6 +496,39 @@ class C08(Spec):
         else:
             ctx.count("further-failing-inputs:" + tags[0])
 
+    def _raises(self, ctx, stage, inp, e, extra=None):
+        """an exception escaping from the real code on a generated input: a concrete failing input, not an
+        infrastructure problem"""
+        det = {"stage": stage, "exc": "%s: %s" % (type(e).__name__, str(e)[:400])}
+        det.update(extra or {})
+        self._hit_capped(ctx, "real code raises on a generated document (%s)" % stage, inp, det,
+                         ["c08-raises-" + stage.split(":")[0]], cap=4)
+
+    def _guarded_doc(self, ctx, seed, version, size, need_axml=True):
+        """make_doc + adm_to_xml + a plain parse of what was written, each guarded: (adm, axml) or None after the
+        concrete document has been reported"""
+        inp = {"generator": "harness.c08_docs.make_doc", "doc_seed": seed, "version": version, "size": size}
+        try:
+            adm, _ = docs.make_doc(seed, version, size)
+        except Exception as e:
+            self._raises(ctx, "make_doc/generate_ids", inp, e)
+            return None
+        if not need_axml:
+            return adm, None
+        try:
+            axml = refs.axml_of(adm)
+        except Exception as e:
+            self._raises(ctx, "adm_to_xml", inp, e)
+            return None
+        try:
+            from ear.fileio.adm.adm import ADM
+            from ear.fileio.adm.xml import load_axml_string
+            load_axml_string(ADM(), axml, lookup_references=False)
+        except Exception as e:
+            self._raises(ctx, "load_axml_string", inp, e, {"axml_written": axml.decode()[:3000]})
+            return None
+        return adm, axml
+
     # ---- leaf correspondence ------------------------------------------------------------------
     def correspond(self, ctx):
         self._hits_by_tag = {}
@@ -566,10 +600,10 @@ class C08(Spec):
                 except Exception as e:
                     ok, again, back = False, None, "raises %s: %s" % (type(e).__name__, e)
                 if not ok:
-                    ctx.hit("time does not round-trip", {"time": repr(t), "allow_fractional": af},
+                    self._hit_capped(ctx, "time does not round-trip", {"time": repr(t), "allow_fractional": af},
                             {"printed": s, "parsed": repr(back)}, ["c08-time-roundtrip"])
                 elif again != s:
-                    ctx.hit("time string is not a fixed point", {"time": repr(t), "allow_fractional": af},
+                    self._hit_capped(ctx, "time string is not a fixed point", {"time": repr(t), "allow_fractional": af},
                             {"printed": s, "printed_again": again}, ["c08-time-fixed-point"])
 
     def _ids_inputs(self, ctx, rng, n):
@@ -788,11 +822,14 @@ class C08(Spec):
 
     def _corr_handlers(self, ctx, drv, rng, n):
         """the three exactly modelled hand-written handler pairs: real functions vs Earverif.XmlCustom"""
-        vals = codec.gen_handler_values(rng, n)
+        dvals = directed.values1()  # directed family first: defaults / one step off x every auxiliary attribute
+        ctx.count("corr:handler:directed-values(round 1-2)", len(dvals))
+        vals = dvals + codec.gen_handler_values(rng, n)
         outs = drv.run([codec.handler_value_line(w, v) for w, v in vals])
-        lines2, meta2 = [], []
+        written = []
         for (which, value), m in zip(vals, outs):
             want = codec.py_handler_to_xml(which, value)
+            written.append((which, want))
             try:
                 got, _ = codec.parse_tree_tokens(m.split())
             except Exception:
@@ -825,7 +862,8 @@ class C08(Spec):
             if inside and back != expect:
                 self._hit_capped(ctx, "hand-written handler does not round-trip", {"handler": which, "value": repr(value)},
                         {"written": repr(want)[:600], "read_back": back, "expected": expect}, ["c08-handler-roundtrip-" + which])
-        trees = codec.gen_handler_trees(rng, n)
+        # the trees the real writer produced (directed values first), then synthetic ones: real parse vs model parse
+        trees = written[:len(dvals) + n // 3] + codec.gen_handler_trees(rng, n)
         lines = []
         for which, t in trees:
             ns, name, attrs, text, kids = t
@@ -844,11 +882,19 @@ class C08(Spec):
 
     def _corr_handlers2(self, ctx, drv, rng, n):
         """round 3: Objects position, gain element / attribute, channelLock, objectDivergence, zoneExclusion"""
-        vals = codec.gen_values2(rng, n)
+        dvals = directed.values2()
+        ctx.count("corr:handler:directed-values(round 3)", len(dvals))
+        vals = dvals + codec.gen_values2(rng, n)
         outs = drv.run([codec.value2_line(w, v) for w, v in vals])
+        written = []
+        pmode = {"opos": "opos", "gain": "gain2", "ogain": "gain2", "gattr": "gattr2", "clock": "clock", "div": "div",
+                 "zones": "zones"}
         for (which, value), m in zip(vals, outs):
             try:
                 want = codec.py2_to_xml(which, value)
+                written.append((pmode[which], want))
+                if which in ("gain", "gattr"):
+                    written.append((pmode[which][:-1] + "1", want))
             except Exception as e:
                 want = "raises %s" % type(e).__name__
             try:
@@ -871,7 +917,7 @@ class C08(Spec):
                 self._hit_capped(ctx, "hand-written handler does not round-trip", {"handler": which, "value": repr(value)},
                         {"written": repr(want)[:600], "read_back": repr(back), "expected": repr(exp[1])},
                         ["c08-handler-roundtrip-" + which])
-        trees = codec.gen_trees2(rng, n)
+        trees = written[:2 * len(dvals) + n // 3] + codec.gen_trees2(rng, n)
         lines = []
         for which, t in trees:
             ns, name, attrs, text, kids = t
@@ -895,11 +941,17 @@ class C08(Spec):
         matrix element — real functions vs Earverif.XmlCustom / XmlBlocks, both directions, plus the direct predicate
         (the value comes back from what was written) on the real code inside the stated domain"""
         K = classes
-        vals = K.gen_values4(rng, n)
+        dvals = directed.values4()
+        ctx.count("corr:handler:directed-values(round 4)", len(dvals))
+        vals = dvals + K.gen_values4(rng, n)
         outs = drv.run([K.value4_line(w, v) for w, v in vals])
+        written = []
+        pmode = {"poff": ["poff"], "grange": ["grange1", "grange2"], "prange": ["prange"], "matrix1": ["matrix1"],
+                 "matrix2": ["matrix2"]}
         for (which, value), m in zip(vals, outs):
             try:
                 want = K.py4_to_xml(which, value)
+                written += [(pm, want) for pm in pmode.get(which, [])]
             except Exception as e:
                 want = "raises %s" % type(e).__name__
             try:
@@ -925,7 +977,7 @@ class C08(Spec):
                 self._hit_capped(ctx, "hand-written handler does not round-trip", {"handler": which, "value": repr(value)},
                         {"written": repr(want)[:600], "read_back": repr(back), "expected": repr(exp[1])},
                         ["c08-handler-roundtrip-" + which])
-        trees = K.gen_trees4(rng, n)
+        trees = written[:2 * len(dvals) + n // 3] + K.gen_trees4(rng, n)
         outs = drv.run(["hp %s %s" % (which, " ".join(codec.tree_tokens(t))) for which, t in trees])
         for (which, t), m in zip(trees, outs):
             want = K.py4_parse(which, t)
@@ -949,9 +1001,23 @@ class C08(Spec):
         K = classes
         table = {nm: (p, parser_rows(p)) for nm, p in real_parsers()}
         cases = []
-        for i in range(n_docs):
-            version = 1 + (i % 2)
-            adm, _ = docs.make_doc(rng.randrange(10 ** 9), version, rng.choice([1, 2, 3]))
+        doc_list = [("directed", k, v) for v in (1, 2) for k in range(directed.N_DOCS)]
+        doc_list += [("random", rng.randrange(10 ** 9), 1 + (i % 2)) for i in range(n_docs)]
+        n_directed_cases = 0
+        for dkind, dseed, version in doc_list:
+            dsize = 0 if dkind == "directed" else rng.choice([1, 2, 3])
+            dinp = {"generator": "harness.c08_directed.make_directed_doc" if dkind == "directed" else "harness.c08_docs.make_doc",
+                    "doc_seed": dseed, "version": version, "size": dsize}
+            try:
+                if dkind == "directed":
+                    adm, _ = directed.make_directed_doc(dseed, version)
+                else:
+                    adm, _ = docs.make_doc(dseed, version, dsize)
+            except Exception as e:
+                self._raises(ctx, "make_doc/generate_ids", dinp, e)
+                continue
+            if dkind == "random" and n_directed_cases == 0:
+                n_directed_cases = len(cases)
             h = X.MainElementHandler(BS2076Version(version))
             for me in h.main_elements:
                 for el in me.get_func(adm):
@@ -960,7 +1026,11 @@ class C08(Spec):
                     nm = "v%d/%s" % (version, me.name)
                     with warnings.catch_warnings():
                         warnings.simplefilter("ignore")
-                        tree = codec.from_lxml(table[nm][0].to_xml(ET.Element("parent"), el))
+                        try:
+                            tree = codec.from_lxml(table[nm][0].to_xml(ET.Element("parent"), el))
+                        except Exception as e:
+                            self._raises(ctx, "to_xml:" + me.name, dinp, e, {"element": getattr(el, "id", None)})
+                            continue
                     cases.append((nm, tree, "written"))
                     for c in tree[4]:
                         sub = {"loudnessMetadata": "v%d/loudnessMetadata" % version,
@@ -971,7 +1041,19 @@ class C08(Spec):
                             sub = "v%d/audioBlockFormat:%s" % (version, el.type.name)
                         if sub is not None:
                             cases.append((sub, c, "written"))
-        for nm, tree, _ in list(cases):
+        n_directed_cases = n_directed_cases or len(cases)
+        base = list(cases)
+        # directed edits: every attribute / every kind of child of a directed element absent, one at a time
+        # (typeDefinition without typeLabel and vice versa, a position without its coordinate, a bound without …)
+        seen_shapes = set()
+        for nm, tree, _ in base[:n_directed_cases]:
+            for t in directed.deletions(tree):
+                key = (nm, repr(t))
+                if key not in seen_shapes:
+                    seen_shapes.add(key)
+                    cases.append((nm, t, "one-deletion"))
+        ctx.count("corr:class:directed-elements", n_directed_cases)
+        for nm, tree, _ in base[n_directed_cases:]:
             for _ in range(n_mut):
                 t = tree
                 for _ in range(rng.choice([1, 1, 2, 3])):
@@ -1014,8 +1096,10 @@ class C08(Spec):
             seed, version, size = rng.randrange(10 ** 9), 1 + (i % 2), rng.choice([1, 2, 3])
             with warnings.catch_warnings():
                 warnings.simplefilter("ignore")
-                adm0, _ = docs.make_doc(seed, version, size)
-                axml = R.axml_of(adm0)
+                g = self._guarded_doc(ctx, seed, version, size)
+                if g is None:
+                    continue
+                adm0, axml = g
                 fault = R.FAULTS[i % len(R.FAULTS)] if i < 2 * len(R.FAULTS) else rng.choice(R.FAULTS)
                 adm = R.resolved_doc(rng, axml) if fault == "already-resolved" else R.unresolved_doc(rng, axml)
                 applied = R.inject(rng, adm, fault)
@@ -1088,8 +1172,10 @@ class C08(Spec):
                     adm0, _ = docs.make_chna_only_doc(seed)
                     axml, kind = None, "chna-only"
                 else:
-                    adm0, _ = docs.make_doc(seed, version, size)
-                    axml, kind = R.axml_of(adm0), "doc"
+                    g = self._guarded_doc(ctx, seed, version, size)
+                    if g is None:
+                        continue
+                    (adm0, axml), kind = g, "doc"
                 if not all(t.id.isascii() for t in adm0.audioTrackUIDs):
                     continue
                 pm, rows = R.real_populate(adm0)
@@ -1211,19 +1297,33 @@ class C08(Spec):
             inp = {"generator": "harness.c08_docs.make_doc", "doc_seed": job[0], "version": job[1], "size": job[2]}
             ctx.case(("transfer",) + job, True)
             ctx.count("search:chna-transfer-roundtrip:documents")
-            for tag, det in refs.predicate_transfer(*job):
+            try:
+                res = refs.predicate_transfer(*job)
+            except Exception as e:
+                self._raises(ctx, "chna-transfer", inp, e)
+                continue
+            for tag, det in res:
                 self._hit_capped(ctx, "CHNA <-> audioTrackUID transfer: " + tag, inp, det, ["c08-" + tag])
         for i in range(max(4, n_transfer // 4)):
             seed = rng.randrange(10 ** 9)
             ctx.case(("chna-only-transfer", seed), True)
             ctx.count("search:chna-only-transfer:documents")
-            for tag, det in refs.predicate_chna_only(seed):
-                self._hit_capped(ctx, "CHNA-only document: " + tag,
-                                 {"generator": "harness.c08_docs.make_chna_only_doc", "doc_seed": seed}, det, ["c08-" + tag])
+            inp = {"generator": "harness.c08_docs.make_chna_only_doc", "doc_seed": seed}
+            try:
+                res = refs.predicate_chna_only(seed)
+            except Exception as e:
+                self._raises(ctx, "chna-only-transfer", inp, e)
+                continue
+            for tag, det in res:
+                self._hit_capped(ctx, "CHNA-only document: " + tag, inp, det, ["c08-" + tag])
         for i in range(n_dup):
             job = (rng.randrange(10 ** 9), 1 + (i % 2), rng.choice([1, 2]))
             inp = {"generator": "harness.c08_refs.predicate_duplicate", "doc_seed": job[0], "version": job[1], "size": job[2]}
-            fails, how = refs.predicate_duplicate(*job)
+            try:
+                fails, how = refs.predicate_duplicate(*job)
+            except Exception as e:
+                self._raises(ctx, "duplicate-id-predicate", inp, e)
+                continue
             ctx.case(("dup",) + job, True)
             ctx.count("search:duplicate-id(%s):documents" % how)
             for tag, det in fails:
@@ -1231,7 +1331,11 @@ class C08(Spec):
         for i in range(n_dangling):
             job = (rng.randrange(10 ** 9), 1 + (i % 2), rng.choice([1, 2]))
             inp = {"generator": "harness.c08_refs.predicate_dangling", "doc_seed": job[0], "version": job[1], "size": job[2]}
-            fails, kind = refs.predicate_dangling(*job)
+            try:
+                fails, kind = refs.predicate_dangling(*job)
+            except Exception as e:
+                self._raises(ctx, "dangling-reference-predicate", inp, e)
+                continue
             ctx.case(("dangling",) + job, True)
             ctx.count("search:dangling-reference(%s):documents" % kind)
             for tag, det in fails:
@@ -1241,8 +1345,9 @@ class C08(Spec):
     def search(self, ctx, deep):
         rng = ctx.rng
         thorough = not ctx.quick
-        n_docs = 2600 if thorough else (320 if deep else 170)
-        jobs = []
+        n_docs = 2600 if thorough else (320 if deep else 150)
+        # directed documents first (defaults-plus-extras for every element class, both versions; no randomness)
+        jobs = [("directed", k, v, 0) for v in (1, 2) for k in range(directed.N_DOCS)]
         for i in range(n_docs):
             version = 1 + (i % 2)
             size = rng.choice([1, 2, 2, 3]) if not thorough else rng.choice([1, 2, 2, 3, 4])
@@ -1263,8 +1368,11 @@ class C08(Spec):
                 ctx.count("search:" + k, v)
             for job, tag, det in fails:
                 det = dict(det)
-                inp = {"generator": "harness.c08_docs.make_doc" if job[0] == "doc" else "harness.c08_docs.make_chna_only_doc",
+                inp = {"generator": {"doc": "harness.c08_docs.make_doc", "directed": "harness.c08_directed.make_directed_doc",
+                                     "chna-only": "harness.c08_docs.make_chna_only_doc"}[job[0]],
                        "doc_seed": job[1], "version": job[2], "size": job[3]}
+                if job[0] == "directed":
+                    inp["document"] = directed.DOC_NAMES[job[1]]
                 if "axml" in det:
                     det["axml_written"] = det.pop("axml")  # last, so that the differences are printed first
                 ctx.hit("generated ADM document: " + tag, inp, det, ["c08-" + tag])
